@@ -323,7 +323,7 @@ func r043(c *Ctx) {
 		extra := 0
 		for _, ce := range dominatingCondsOtherThanLoop(ret) {
 			if ce.cond != ssa.Value(hp) {
-				if cm, ok := asCmp(ce.cond, ce.taken); ok && (isNilConst(cm.x) || isNilConst(cm.y)) {
+				if cm, ok := ce.asCmp(); ok && (isNilConst(cm.x) || isNilConst(cm.y)) {
 					continue // nil check of the bindings slice
 				}
 				extra++
